@@ -37,7 +37,7 @@ TOKENS = ['{', '}', '[', ']', ',', ':', '"jsonrpc"', '"2.0"', '"method"', '"ok"'
 
 def g1(ctx):
     """all token strings of length <= L"""
-    for disp, L in (('sync', ctx.pick(4, 6)), ('async', ctx.pick(4, 5))):
+    for disp, L in (('sync', ctx.pick(5, 6)), ('async', ctx.pick(4, 5))):
         for mbs in (None, 1):
             if mbs == 1 and not ctx.quick:
                 continue    # thorough: the size limit is exercised by G2; keep the 3M-text space for one config
@@ -244,10 +244,10 @@ def run(ctx):
                 'nesting 1..64, whitespace / BOM / duplicate members) at 14 positions. state = one (dispatcher, '
                 'max_batch_size, text) point, distinct by construction; non-trivial = answered with anything other '
                 'than the plain parse error'
-                % (ctx.pick(4, 6), ctx.pick(4, 5), TOKENS, ctx.pick(3, 4), DIGITS))
+                % (ctx.pick(5, 6), ctx.pick(4, 5), TOKENS, ctx.pick(3, 4), DIGITS))
     ctx.assumptions += ['methods return JSON-encodable values (they never echo arguments in this check)',
                         'nesting beyond 64 and token strings beyond the bound are not covered']
-    ctx.bounds.update(tokens=len(TOKENS), token_len_sync=ctx.pick(4, 6), token_len_async=ctx.pick(4, 5),
+    ctx.bounds.update(tokens=len(TOKENS), token_len_sync=ctx.pick(5, 6), token_len_async=ctx.pick(4, 5),
                       array_len=ctx.pick(3, 4), nesting=64, digits=DIGITS)
     ctx.run_cases('C01', lambda: gen_cases(ctx), run_case, recheck_every=1009)
     oc = ctx.rec.outcomes
